@@ -18,13 +18,13 @@ CHECKS = {
          "Exploration. For accepted pairs the patch must be {} iff A equals B, mention only differing members, carry removed members as null and B's number literals; when B has no null member, applying it (reference and library) must give B. Rejection clause over all ordered pairs of root kinds. Exhaustive over the object universe and root-kind pairs; seeded edited objects (small deep diffs), independent objects, arrays of objects.",
          T, "DESIGN.md section 6 C03"),
  "C04": ("crash/panic monitor: recover() around every exported entry point of both packages inside isolated worker processes with a crash journal and per-case watchdogs, on hostile, mutated, enumerated and deeply nested inputs",
-         "Exploration. Every exported entry point of v5 and of the staged legacy package is called on awkward valid inputs, byte mutations, all <=3-token strings for each []byte parameter (quick: all <=2-token strings plus a stride of the 3-token ones), the full option matrix (256 combinations), nesting depths up to 100000, overflow-sized tokens and applicable relocation chains (a node shared between two locations becomes a cycle and a fatal stack overflow). A panic is caught by recover(), a fatal error or kill is attributed to the journalled case by the driver, a case exceeding the watchdog is re-run alone with 5x budget (only a second time-out is a hang).",
+         "Exploration. Every exported entry point of v5 and of the staged legacy package is called on awkward valid inputs, byte mutations, all <=3-token strings for each []byte parameter (quick: all <=2-token strings plus a stride of the 3-token ones), the full option matrix (256 combinations), nesting depths up to 100000, values that grow deeper than the decoder limit through operations (depth-growth), overflow-sized tokens and applicable relocation chains (a node shared between two locations becomes a cycle and a fatal stack overflow). A panic is caught by recover(), a fatal error or kill is attributed to the journalled case by the driver, a case exceeding the watchdog is re-run alone with 5x budget (only a second time-out is a hang).",
          "Trusted: Go runtime's recover and process exit status. 'Never hangs' is decided in the bounded form stated in DESIGN.md section 9. Inputs beyond the generator bounds are not covered.", "DESIGN.md section 6 C04"),
  "C05": ("ordered, literal-exact differential monitor: outputs parsed by an order-preserving parser and compared with the reference's order model; invariant hook on the live tree",
-         "Exploration. Apply outputs must match the reference member by member, in order, number literals as text; the empty patch must reproduce order and literals; MergePatch must keep survivors in document order ahead of new members and untouched members identical. The ApplyEnd hook walks the live tree (key list vs member map agreement) at the end of every call.",
+         "Exploration. Apply outputs must match the reference member by member, in order, number literals as text; the empty patch must reproduce order and literals; MergePatch must keep survivors in document order ahead of new members and untouched members identical. The ApplyEnd hook walks the live tree (key list vs member map agreement) at the end of every call. EnsurePathExistsOnAdd through null-valued members (the member keeps its place). The four Apply entry points must agree on one input in three.",
          T, "DESIGN.md section 6 C05"),
  "C06": ("differential runtime monitor: real Equal vs independent deep comparison, exhaustive over universe pairs, plus symmetry/transitivity/reflexivity laws on generated pairs and triples",
-         "Exploration. Equal must agree with an independent structural comparison (false for ill-formed input) on pairs equal by construction (shuffles, whitespace, re-escaped strings), one-point differences, null shapes, ill-formed and identical ill-formed texts; every pair is also asked swapped; triples for transitivity.",
+         "Exploration. Equal must agree with an independent structural comparison (false for ill-formed input) on pairs equal by construction (shuffles, whitespace, re-escaped strings), one-point differences, null shapes, ill-formed and identical ill-formed texts; every pair is also asked swapped; triples for transitivity; symmetry and reflexivity also on pairs whose value is not compared (duplicate member names, lone surrogates).",
          T, "DESIGN.md section 6 C06"),
  "C07": ("law monitor: MergeMergePatches result vs reference composition, and merge(merge(D,P1),P2) = merge(D,combined) applied by the reference and by the library on several documents",
          "Exploration. Compatible pairs over a small shared key space (so they collide) plus all universe pairs; the combined patch must equal the reference composition and the sequential/combined applications must agree on an empty document, a document holding every mentioned key and random documents.",
@@ -33,31 +33,31 @@ CHECKS = {
          "Exploration. Sequences with inapplicable operations planted at any position; the library must return (nil, err) with ErrTestFailed iff failed test, *AccumulatedCopySizeError iff copy limit, ErrMissing for absent members / unreachable parents; the OpDone hook must report exactly first-failure+1 operations; Apply(P) must equal Apply(P[:k+1]). Floor: 17 (operation, cause) cells each hit >= 20 times.",
          T, "DESIGN.md section 6 C08"),
  "C09": ("history monitor: inputs in mprotect'ed pages with guard pages (writes fault), Patch snapshots, every call of a history compared with the same call run alone in a fresh process, retained outputs re-checked; pool sanitizer off/poison/fresh",
-         "Exploration. ~140 calls per pool over all entry points sharing 6 decoded Patches and ~60 write-protected input buffers; all ordered pairs of (API, class) cells and random histories of 50-500 calls (some under GOGC=1); results must equal the alone-in-a-fresh-process results, retained outputs must not change, arguments must not be written (fault) or restructured (snapshot).",
+         "Exploration. ~140 calls per pool over all entry points sharing 6 decoded Patches and ~60 write-protected input buffers; all ordered pairs of (API, class) cells and random histories of 50-500 calls (some under GOGC=1); results must equal the alone-in-a-fresh-process results, retained outputs must not change, arguments must not be written (fault) or restructured (snapshot); three shared *ApplyOptions values are compared field by field (unexported ones included) after every call; every root kind on either side of the two-argument entry points; hand-written patches that fail part-way; the poison mode rotates through 16 rejected texts that stop the scanner in different states.",
          "Trusted: a call run alone in a fresh process defines its result; mprotect/SetPanicOnFault. Histories longer than 500 calls and other call pools are not covered.", "DESIGN.md section 6 C09"),
  "C10": ("Go race detector over a barrier-released concurrent workload + result-vs-alone comparison + pool ownership sanitizer + schedule perturbation (yield hooks, GOMAXPROCS, GOGC=1, cold-start stampedes)",
-         "Exploration. The same rounds run in a -race build (reports parsed from the log; any report with a library frame is a violation; a canary race proves the detector reports) and a plain build (more rounds): 2-64 goroutines, shared Patch and shared write-protected inputs, all entry points, results compared with alone-in-a-fresh-process results, pool ownership checked, run-time generated struct types through the codec, fresh-process stampedes.",
+         "Exploration. The same rounds run in a -race build (reports parsed from the log; any report with a library frame is a violation; a canary race proves the detector reports) and a plain build (more rounds): 2-64 goroutines, shared Patch and shared write-protected inputs, all entry points, results compared with alone-in-a-fresh-process results, shared *ApplyOptions values used by many goroutines at once, pool ownership checked, run-time generated struct types through the codec, fresh-process stampedes.",
          "Trusted: the Go race runtime (reports only races between accesses that executed), sampled schedules. Evidence lists goroutines, GOMAXPROCS values, pooled states in flight and distinct interleaving signatures.", "DESIGN.md section 6 C10"),
  "C11": ("differential runtime monitor: real DecodePatch vs reference acceptor, exhaustive over member mutations of canonical operations; accessor results vs decoded members",
          "Exploration. Exhaustive: 6 operations x each member x 19 mutations + odd element kinds, alone and planted at 9 positions (thorough: all pairs of mutants), root kinds; seeded valid and byte-mutated patches. Accept/reject must match the rule in the property; accepted patches: Kind/Path/From/ValueInterface must return the decoded members.",
          T, "DESIGN.md section 6 C11"),
  "C12": ("hook monitor: CopyAccounted(size,total) events compared with reference sizes at every copy (decides all limits at once) + limit placed at every prefix total -1/+0/+1; legacy package at the call boundary",
-         "Exploration. Copy-heavy sequences on encoder-spelled documents (sizes from the reference spelling) and on documents in arbitrary spelling with whitespace (sizes measured on the library own output: the patch is applied up to each copy and the text found at the destination is measured); v5 per-call limit, package default, per-call limit against a different package default (0 included), legacy package default; error must be *AccumulatedCopySizeError exactly when the total exceeds a positive limit; limit 0 disables; other operations never produce accounting events.",
+         "Exploration. Copy-heavy sequences on encoder-spelled documents (sizes from the reference spelling) and on documents in arbitrary spelling with whitespace (sizes measured on the library own output: the patch is applied up to each copy and the text found at the destination is measured); v5 per-call limit, package default, per-call limit against a different package default (0 included), one options value reused for four calls in a row, root replacement before the copies, legacy package default; error must be *AccumulatedCopySizeError exactly when the total exceeds a positive limit; limit 0 disables; other operations never produce accounting events.",
          T, "DESIGN.md section 6 C12"),
  "C13": ("metamorphic monitor: Apply(option on, P) vs Apply(option off, P minus the removes the reference says address absent targets), plus the reference itself",
-         "Exploration. Exhaustive single operations and seeded remove-heavy sequences; document bytes or error class must match between the two runs of the library, and the reference; the failing operation must be the same one (OpDone hook).",
+         "Exploration. Exhaustive single operations and seeded remove-heavy sequences; document bytes or error class must match between the two runs of the library, and the reference; the failing operation must be the same one (OpDone hook); one options value set once and reused for a history of judged and unjudged failing calls.",
          T, "DESIGN.md section 6 C13"),
  "C14": ("reference + independent postcondition monitor: ensure-then-add reference, resolver finds the added value, frame check over every pre-existing pointer, created containers hold only path and padding, plain adds unchanged",
-         "Exploration. Exhaustive: all paths of <=3 (thorough 4) tokens over 9 tokens on 8 documents x 2 values; seeded random paths with existing prefixes followed by further operations.",
+         "Exploration. Exhaustive: all paths of <=3 (thorough 4) tokens over 9 tokens on 8 documents x 2 values; seeded random paths with existing prefixes followed by further operations; arrays shrunk by remove/move and then padded by an ensure-path add; an add that reports success must have put the value at the path also where the reference defines no result (member-name token on an array).",
          T, "DESIGN.md section 6 C14"),
  "C15": ("byte-level output monitor: independent RFC 8259 recogniser + encoding/json on every output, raw-HTML-byte scan, EscapeRaw(off)==on identity, reference re-indentation, passing-test invariance",
-         "Exploration. Hostile strings and member names (<,>,&,U+2028/9, quotes, backslashes, controls, non-BMP, lone surrogates) in touched/untouched/copied/moved/tested positions; all five producing entry points.",
+         "Exploration. Hostile strings and member names (<,>,&,U+2028/9, quotes, backslashes, controls, non-BMP, lone surrogates) in touched/untouched/copied/moved/tested positions and beneath containers created by EnsurePathExistsOnAdd; passing-test invariance also on documents with insignificant whitespace; all five producing entry points.",
          T + " Byte-identity clauses only on encoder-spelled inputs (stated domain).", "DESIGN.md section 6 C15"),
  "C16": ("language-equality monitor: embedded codec acceptors vs independent recogniser (encoding/json as second opinion) exhaustively over short byte/token strings; entry-point gates per []byte parameter",
-         "Exploration. Exhaustive: all byte strings <=4 (thorough 5) over 20 symbols, all <=3 (thorough 4) token sequences over 42 tokens, nesting 9999/10000/10001; seeded generated and mutated texts; 11 entry-point gates on the token set and generated texts.",
+         "Exploration. Exhaustive: all byte strings <=4 (thorough 5) over 20 symbols, all <=3 (thorough 4) token sequences over 42 tokens, nesting 9999/10000/10001; seeded generated and mutated texts; 11 entry-point gates on the token set, generated texts and patches respelled with random escapes; runs of invalid UTF-8 inside strings.",
          T + " Ill-formed UTF-8 compared with encoding/json only.", "DESIGN.md section 6 C16"),
  "C17": ("differential monitor: embedded codec vs this toolchain's encoding/json and an independent parser, on texts, Go values and run-time generated struct types, in one long history per worker under the pool sanitizer",
-         "Exploration. Round trip through each of the four decoding entry points and both escape settings, and key lists, vs the ordered parser; every decimal exponent -35..35 of float32/float64 in plain, pointer, interface, map, struct and quoted (,string) positions; Compact/Indent/HTMLEscape bytes; Marshal/MarshalIndent/MarshalEscaped/Encoder bytes; Unmarshal/Decoder into reflect.StructOf types with tags; Decoder streams (Decode/Token/More/Buffered/InputOffset); values, bytes, error presence and SyntaxError offsets must agree.",
+         "Exploration. Round trip through each of the four decoding entry points and both escape settings, and key lists, vs the ordered parser; every decimal exponent -35..35 of float32/float64 in plain, pointer, interface, map, struct and quoted (,string) positions; Compact/Indent/HTMLEscape bytes; Marshal/MarshalIndent/MarshalEscaped/Encoder bytes; Unmarshal/Decoder into reflect.StructOf types with tags; Decoder streams (Decode/Token/More/Buffered/InputOffset); the fork-only RedirectMarshaler/TrustMarshaler in every position; names needing Unicode simple folding; Number accessors and misuse errors; values, bytes, error presence and SyntaxError offsets must agree.",
          "Trusted: go1.23 encoding/json as ground truth; normalised: U+0008/U+000C spelling and the Number type.", "DESIGN.md section 6 C17"),
  "C18": ("differential runtime monitor: legacy package (staged from /repo root at check time) vs the reference evaluator in the v4 dialect",
          "Exploration. Exhaustive single operations and seeded sequences; all-applicable sequences must give the RFC result up to member order; failed test / remove-move of absent location / index out of range must give an error and no document.",
@@ -66,7 +66,7 @@ CHECKS = {
          "Exploration. MergePatch vs RFC 7396 (object/array patches), CreateMergePatch minimality and round trip (float64-printable numbers), MergeMergePatches composition law, Equal vs structural equality (no escapes).",
          T, "DESIGN.md section 6 C19"),
  "C20": ("whole-program monitor: the built json-patch binaries run as child processes, (exit status, stdout, stderr) compared with folding DecodePatch+Apply in-process; strace fault injection for unreadable files",
-         "Exploration. v5 and legacy binaries, 0-4 patch files of 7 kinds in generated, shuffled and repeated orders (valid patches generated against the evolving state so order matters), 1 MiB documents, patch files without operations combined with ill-formed / non-compact / scalar / empty stdin, percent signs in names and strings, EIO injected on the first read of a patch file.",
+         "Exploration. v5 and legacy binaries, 0-4 patch files of 7 kinds in generated, shuffled and repeated orders (valid patches generated against the evolving state so order matters), 1 MiB documents, patch files without operations combined with ill-formed / non-compact / scalar / empty stdin, percent signs in names and strings, files whose outcome depends on the document being re-read between files, EIO injected on the first read of a patch file.",
          "Trusted: the library in the harness process and in the binary are built from the same tree; strace -e inject.", "DESIGN.md section 6 C20"),
 }
 
